@@ -165,9 +165,12 @@ def norm(path):
             j = _match(path, i)
             inner = path[i + 1:j]
             ty0 = inner[5:].strip().lstrip("&").split("<")[0].split("::")[0] if inner.startswith("impl ") else ""
-            if inner.startswith("impl ") and " for " not in _top_level(inner) and (ty0 in _CRATE_ROOTS or (ty0[:1].isupper() and "::" not in inner[5:].split("<")[0])):
+            here = ''.join(out).split("::")[0]
+            if inner.startswith("impl ") and " for " not in _top_level(inner) and ((ty0 in _CRATE_ROOTS and here == ty0) or (ty0[:1].isupper() and "::" not in inner[5:].split("<")[0])):
                 # an inherent impl block that lives in another module than its type (`m::sub::<impl m::Ty>::f`): the item belongs to the
-                # type, wherever the block was written
+                # type, wherever inside the type's own top-level module the block was written. An impl block in a *different* top-level
+                # module (`async_io::<impl parser::request::Parser>::read_request`) stays a function of the module it is written in: the
+                # layer rules (who may touch the transport, ...) go by where code lives
                 out = list(norm(inner[5:].strip()))
                 i = j + 1
                 continue
